@@ -86,8 +86,36 @@ def run_case(ctx, case):
         rec.violation("float introduced for exact data", case)
 
 
+def run_history(ctx):
+    """the same knot vector and node set fitted repeatedly in one process with different bases (rational with unequal weights
+    first): every fit must solve its own problem whatever was fitted before"""
+    rng = ctx["rng"]
+    for i in range(budget(ctx, 10, 120)):
+        U = rand_kv(rng, pmax=3, nintmax=2)
+        p, n, knots = kv_info(U)
+        a, b = U[0], U[-1]
+        k = n + rng.randint(0, 3)
+        nodes = None
+        if i % 3 != 2:
+            nodes = sorted(set(a + (b - a) * F(rng.randint(0, 60), 60) for _ in range(4 * k)))[:k]
+            if len(nodes) < n:
+                continue
+        k = max(2, k) if nodes is None else len(nodes)
+        W1 = [F(rng.randint(1, 9), rng.randint(1, 4)) for _ in range(n)]
+        if len(set(W1)) == 1:
+            W1[0] += 1
+        W2 = [F(rng.randint(1, 9), rng.randint(1, 4)) for _ in range(n)]
+        dim = rng.choice([1, 2])
+        for W in (W1, None, W2, W1, None):
+            ctx["rec"].count("history", "rational" if W is not None else "spline")
+            run_case(ctx, ser(dict(kind="points", U=U, W=W, points=rand_points(rng, k, dim), nodes=nodes)))
+        run_case(ctx, ser(dict(kind="function", U=U, W=W1, src=rand_points(rng, n, dim))))
+        run_case(ctx, ser(dict(kind="function", U=U, W=None, src=rand_points(rng, n, dim))))
+
+
 def run(ctx):
     rng = ctx["rng"]
+    run_history(ctx)
     for i in range(budget(ctx, 90, 1200)):
         U = rand_kv(rng, pmax=3, nintmax=3)
         p, n, knots = kv_info(U)
